@@ -38,7 +38,7 @@ def run(ctx):
         runs = [(t, n, lim, names, 3) for t in (2, 3, 4, 8) for (n, lim, names) in ((4000, 0, 3), (3000, 2, 4), (3000, 1, 2), (3000, 4, 8))]
         runs += [(t, 1500, lim, names, 3, "proc") for t in (2, 4, 8) for (lim, names) in ((0, 3), (2, 4), (1, 2))]
         runs += [(t, 4000, lim, 5, 3, "collide") for t in (2, 4, 8) for lim in (0, 3, 64)]
-        runs += [(t, 3000, lim, 3, 12, "onewriter") for t in (3, 4, 8) for lim in (0, 2)]
+        runs += [(t, 1500, lim, 3, 5, "onewriter") for t in (3, 4, 8) for lim in (0, 2)]
     n = 0
     for spec in runs:
         n += 1
